@@ -315,13 +315,20 @@ def _mp_tile_worker(queue, done_event, pio, _kwargs):
     tile_parity_sign = pio.get_default_vertical_parity_sign()
 
     while True:
+        # Sample the shutdown flag *before* trying to receive. The producer only
+        # sets it after every item has been flushed to the queue, so "flag was
+        # set, then the receive timed out" means that nothing is left for us.
+        # Checking the flag only after the timeout could race with the producer
+        # flushing its last item and lose that item.
+        done = done_event.is_set()
+
         try:
             # un-pickling WCS objects always triggers warnings right now
             with warnings.catch_warnings():
                 warnings.simplefilter("ignore")
                 image, desc = queue.get(True, timeout=1)
         except Empty:
-            if done_event.is_set():
+            if done:
                 break
             continue
 
